@@ -15,7 +15,7 @@ func c07Cfg(opts flags.Options) *DeclCfg {
 	return &DeclCfg{
 		MaxDepth: 3, MaxFan: 3, PCmds: 70, Types: types, OptsMin: 1, OptsMax: 4, SubGroupsMax: 1, NestMax: 2,
 		PNamespace: 45, PShortOnly: 15, PLongOnly: 20, PClash: 10, NonASCII: true, PNoFlag: 35,
-		PPos: 25, PosMax: 2, PRest: 40, PExec: 40, PByTag: 50, PSubOptional: 45, PAliases: 20,
+		PPos: 35, PosMax: 2, PRest: 40, PPosLongTag: 50, PNamedRest: 30, PExec: 40, PByTag: 50, PSubOptional: 45, PAliases: 20,
 		ParserOpts: []flags.Options{opts}, NsDelims: []string{"", ".", "-", "::"}, PosTypes: []TypeSpec{{K: KString}},
 	}
 }
@@ -110,7 +110,7 @@ func c07Run(c *Ctx) {
 	cur := cmdBefore(d, valid, pos)
 	scope := d.ScopeOf(cur)
 	// choose the unknown token
-	kind := []string{"near-miss", "near-miss", "out-of-scope", "cluster", "no-flag-field", "after-sibling-word"}[(c.K/12)%6]
+	kind := []string{"near-miss", "near-miss", "out-of-scope", "cluster", "no-flag-field", "after-sibling-word", "positional-field-tag"}[(c.K/12)%7]
 	var tok, name string
 	cluster := false
 	var extraWord []string
@@ -144,6 +144,24 @@ func c07Run(c *Ctx) {
 		if !so.T.IsFlag() {
 			tok += "=" + GenScalarTextSimple(r, so)
 		}
+	case "positional-field-tag":
+		// a long: tag on a field of a positional-args struct does not declare an option
+		var pas []*PosArg
+		for _, cm := range cur.Chain() {
+			if cm.Pos != nil {
+				for _, a := range cm.Pos.Args {
+					if a.ExtraLong != "" {
+						pas = append(pas, a)
+					}
+				}
+			}
+		}
+		if len(pas) == 0 {
+			kind = "near-miss"
+			break
+		}
+		name = pas[r.Intn(len(pas))].ExtraLong
+		tok = "--" + name + "=" + r.Pick([]string{"x", "3", "t1"})
 	case "no-flag-field":
 		// a name declared only inside a struct field tagged no-flag is not an option
 		var nfs []*NoFlagField
